@@ -19,6 +19,7 @@ from liquid.builtin.expressions import Path
 from liquid.builtin.expressions import parse_identifier
 from liquid.builtin.expressions import parse_string_or_path
 from liquid.exceptions import TemplateNotFoundError
+from liquid.stringify import to_python_string
 from liquid.tag import Tag
 from liquid.token import TOKEN_AS
 from liquid.token import TOKEN_FOR
@@ -71,7 +72,9 @@ class IncludeNode(Node):
 
         try:
             template = context.env.get_template(
-                str(name), context=context, tag=self.tag
+                to_python_string(name, token=self.name.token),
+                context=context,
+                tag=self.tag,
             )
         except TemplateNotFoundError as err:
             err.token = self.name.token
@@ -120,7 +123,9 @@ class IncludeNode(Node):
 
         try:
             template = await context.env.get_template_async(
-                str(name), context=context, tag=self.tag
+                to_python_string(name, token=self.name.token),
+                context=context,
+                tag=self.tag,
             )
         except TemplateNotFoundError as err:
             err.token = self.name.token
